@@ -67,6 +67,7 @@ type FnContract struct {
 	Requires []*ClauseFn
 	Ensures  []*ClauseFn
 	Modifies []*ClauseFn
+	Inputs   []*ClauseFn // replay inputs (uint64-valued expressions over the entry state)
 	Loops    map[int]*LoopContract
 	Lemma    bool
 	// parameter names (receiver first) and result names as used in clauses
@@ -601,6 +602,20 @@ func (e *Engine) generate() error {
 				} else {
 					fc.Ensures = append(fc.Ensures, cf)
 				}
+			case contract.Input:
+				src, _, err := contract.RewriteExpr(c.Text, pnames)
+				if err != nil {
+					return fmt.Errorf("%s:%d: %v", c.File, c.Line, err)
+				}
+				var sb strings.Builder
+				for i, p := range ps {
+					if err := addParam(&sb, p.name, p.t); err != nil {
+						return err
+					}
+					cf.Vars = append(cf.Vars, VarRef{Name: p.name, Kind: "param", Idx: i, Type: p.t})
+				}
+				fmt.Fprintf(&g.body, "%sfunc %s(%s) uint64 { return uint64(%s) }\n\n", hdr, c.GenName, sb.String(), src)
+				fc.Inputs = append(fc.Inputs, cf)
 			case contract.Modifies, contract.LoopModifies:
 				items, err := contract.ParseModifies(c.Text)
 				if err != nil {
@@ -872,6 +887,7 @@ func (e *Engine) resolve() error {
 		all = append(all, fc.Requires...)
 		all = append(all, fc.Ensures...)
 		all = append(all, fc.Modifies...)
+		all = append(all, fc.Inputs...)
 		for _, lc := range fc.Loops {
 			all = append(all, lc.Invariants...)
 			if lc.Decreases != nil {
